@@ -10,15 +10,17 @@ base=$(cd "$wt" && /venv/bin/python -m pytest -q -p no:cacheprovider --timeout=9
 /venv/bin/python "$out/demo.py" "$wt" >"$out/demo_with_change.txt" 2>&1; with=$?
 /venv/bin/python "$out/demo.py" /repo >"$out/demo_without_change.txt" 2>&1; without=$?
 echo "baseline: $base"; echo "demo with change: exit $with; without: exit $without"
-git -C /repo apply "$out/patch.diff" || { echo "patch does not apply to /repo"; exit 3; }
+# the checks honour VERIF_REPO: run them against the worktree that carries the change (equivalent to applying the patch to /repo,
+# which is what `git -C /repo apply seeded/<id>/patch.diff && ./check <ID>; git -C /repo checkout -- .` does)
+git -C /repo apply --check "$out/patch.diff" || { echo "patch does not apply to /repo"; exit 3; }
 results=""
 for id in "$@"; do
-  r=$(/verif/check "$id" --tier quick 2>&1 | grep -c "^VIOLATION property=$id")
-  first=$(/verif/check "$id" --tier quick 2>&1 | grep -A2 "^VIOLATION" | head -3 | cut -c1-300)
+  log=$(VERIF_REPO="$wt" /verif/check "$id" --tier quick 2>&1)
+  r=$(echo "$log" | grep -c "^VIOLATION property=$id")
+  first=$(echo "$log" | grep -A2 "^VIOLATION" | head -3 | cut -c1-300)
   echo "check $id: $r violation line(s)"; echo "$first"
   results="$results \"$id\": $r,"
 done
-git -C /repo checkout -- .
 cat > "$out/meta.json" <<META
 {
  "seed": "$sid",
